@@ -810,6 +810,108 @@ def run_case(ctx, i, drop_prefixes=()):
     ctx.sample(dict(index=i, steps=nsteps, first_calls=h.log[:12]), 3)
 
 
+def wide_loop_case(ctx, i):
+    """A loop of 120-700 items (the per-packet name tables of the library grow several times on the way): created,
+    filled with two packets, enumerated, iterated into fresh and into caller packets, one item set for all packets,
+    one item removed - every answer compared with what was put in."""
+    L = ctx.L
+    n = (120, 150, 260, 400, 700)[(i // 40) % 5]
+    case = dict(index=i, kind='wide-loop', items=n)
+    scope = LedgerScope(L).__enter__()
+    names = [('_item_%04d' % k) if k % 7 else ('_Item_%04d' % k) for k in range(n)]
+    norms = [N.norm(x) for x in names]
+    rc, cif = L.create()
+    rc, b = L.create_block(cif, 'wide')
+    lp = None
+    live_pk = []
+    try:
+        rc, lp = L.create_loop(b, None if i % 2 else 'w', names)
+        if rc != CIF_OK:
+            raise Mismatch('model:cif_container_create_loop:0:%d:wide' % rc, 'creating a loop of %d items -> %d' % (n, rc))
+        want = []
+        for r in range(2):
+            rc, pk = L.packet_create(names)
+            live_pk.append(pk)
+            row = {}
+            for k, nm in enumerate(names):
+                pv = ('char', 'r%d_%d' % (r, k), True) if k % 5 else ('numb', '%d.%d' % (r, k), False)
+                v = L.make_value(pv)
+                rcs = L.packet_set(pk, nm.upper() if k % 11 == 0 else nm, v)
+                L.value_free(v)
+                if rcs != CIF_OK:
+                    raise Mismatch('model:cif_packet_set_item:0:%d:wide' % rcs, 'setting item %d of %d in a packet -> %d' % (k, n, rcs))
+                row[norms[k]] = pv
+            rcn, pn = L.packet_names(pk)
+            if len(pn) != n:
+                raise Mismatch('state:packet:names:wide', 'a packet created with %d names and set under equivalent spellings lists %d' % (n, len(pn)))
+            lost = [nm for nm in names if L.packet_get(pk, nm)[0] != CIF_OK]
+            if lost:
+                raise Mismatch('state:packet:lookup:wide', '%d of the %d items of a packet are not found by name, first %r' % (len(lost), n, lost[0]))
+            rc = L.loop_add_packet(lp, pk)
+            L.packet_free(pk)
+            live_pk.remove(pk)
+            if rc != CIF_OK:
+                raise Mismatch('model:cif_loop_add_packet:0:%d:wide' % rc, 'adding a packet of %d items -> %d' % (n, rc))
+            want.append(row)
+
+        def expect(what):
+            d = D.dump_loop(L, lp)
+            got = sorted((tuple(sorted((nm, D.canon(v)) for nm, v in p)) for p in d[2]), key=repr)
+            exp = sorted((tuple(sorted((nm, D.canon(v)) for nm, v in row.items())) for row in want), key=repr)
+            if sorted(N.norm(x) for x in d[1]) != sorted(row_names) or got != exp:
+                raise Mismatch('state:wide-loop:%s' % what, 'a loop of %d items differs from what was stored after %s: %s' % (n, what, D.first_difference(tuple(got), tuple(exp))))
+        row_names = list(norms)
+        expect('add_packet')
+        rc, it = L.loop_get_packets(lp)
+        seen = 0
+        cpk = L.packet_create(names[:n // 2])[1]
+        while True:
+            rc, pk = L.it_next(it, 'reuse', cpk) if seen % 2 else L.it_next(it, 'new')
+            if rc != CIF_OK:
+                break
+            lost = [nm for nm in names if L.packet_get(pk, nm)[0] != CIF_OK]
+            if lost:
+                L.it_abort(it)
+                raise Mismatch('state:next_packet:item-not-retrievable', '%d of %d items of a delivered packet are not found by name' % (len(lost), n))
+            if not seen % 2:
+                L.packet_free(pk)
+            seen += 1
+        L.packet_free(cpk)
+        rc2 = L.it_close(it)
+        if rc != CIF_FINISHED or seen != 2 or rc2 != CIF_OK:
+            raise Mismatch('model:cif_pktitr_next_packet:1:%d:wide' % rc, 'iterating a loop of %d items: %d packets, then %d, close %d' % (n, seen, rc, rc2))
+        v = L.make_value(('char', 'set for all', True))
+        rc = L.set_value(b, names[n - 3], v)
+        L.value_free(v)
+        if rc != CIF_OK:
+            raise Mismatch('model:cif_container_set_value:0:%d:wide' % rc, 'set_value of a looped item -> %d' % rc)
+        for row in want:
+            row[norms[n - 3]] = ('char', 'set for all', True)
+        expect('set_value')
+        rc = L.remove_item(b, names[1].upper())
+        if rc != CIF_OK:
+            raise Mismatch('model:cif_container_remove_item:0:%d:wide' % rc, 'remove_item -> %d' % rc)
+        for row in want:
+            del row[norms[1]]
+        row_names.remove(norms[1])
+        expect('remove_item')
+        ctx.count('wide_loops_completed')
+    except Mismatch as mm:
+        ctx.violation(mm.key, mm.detail, case)
+    except D.DumpError as e:
+        ctx.violation('dump:%s:%d:wide' % (e.fn, e.rc), 'reading back a loop of %d items: %s' % (n, e), case)
+    finally:
+        for pk in live_pk:
+            L.packet_free(pk)
+        if lp:
+            L.loop_free(lp)
+        L.container_free(b)
+        L.destroy(cif)
+    for suffix, detail in scope.finish():
+        ctx.violation(suffix, detail, case)
+    ctx.drain_events(case)
+
+
 def worker(ctx):
     total = ctx.params['histories']
     if ctx.params.get('_single') is not None:
@@ -817,6 +919,8 @@ def worker(ctx):
     for i in ctx.cases(total):
         ctx.begin(i)
         ctx.count('histories')
+        if i % 40 == 7:
+            wide_loop_case(ctx, i)
         run_case(ctx, i)
 
 
@@ -830,7 +934,7 @@ def coverage(res, n):
         samples=res.samples, calls=res.count('calls'), histories_completed=res.count('histories_completed'),
         failed_calls_checked_unchanged=res.count('failed_calls'), state_comparisons=res.count('state_comparisons'),
         iterations=res.count('iterations'), scalar_cycles=res.count('scalar_cycles'),
-        recreate_after_prune=res.count('recreate_after_prune'), stale_handle_cases=res.count('stale_handle_cases'), stale_container_cases=res.count('stale_container_cases'),
+        recreate_after_prune=res.count('recreate_after_prune'), stale_handle_cases=res.count('stale_handle_cases'), stale_container_cases=res.count('stale_container_cases'), wide_loops_completed=res.count('wide_loops_completed'),
             stale_container_results=sorted(res.sets.get('stale_container_results', ())),
         parses_into_existing=res.count('parses_into_existing'),
         operation_result_matrix=sorted(res.sets.get('op_rc', ())),
